@@ -975,7 +975,8 @@ def mean(a, axis=None, **kw):
         return np.mean(a, axis=axis, **kw)
     a = asarr(a)
     if axis is not None and a.ndim != 1:
-        raise SxUnsupported("mean(axis)")
+        tot = sum_(a, axis=axis)
+        return _binop(tot, a.shape[axis], _div, force_float=True)
     return _div(sum_(a), a.size)
 
 
